@@ -93,6 +93,10 @@ async def transfer(net, hyg, plan):
         # a back end whose operations really suspend (as AsyncPathIO's do): close/write/open take virtual time
         bd = plan["backend_delay"]
         w.ctl.delay = lambda op, path, n: bd if op in ("close", "write", "open", "read") else 0
+    if plan.get("short_reads"):
+        srng = random.Random(plan["seed"] + 5)
+        cap = plan["short_reads"]
+        w.ctl.read_cap = lambda n: srng.choice([cap, n, max(1, n // 3), 1]) if n > 1 else n
     viol = []
     mon = {"upload_model": 0, "download_model": 0, "second_session": 0, "reply_after_close": 0}
     lat = plan["lat"]
@@ -278,6 +282,8 @@ def gen_cases(tier, seed):
                 "mss": mss, "lat": [rng.choice([0.0002, 0.001, 0.004]) for _ in range(3)],
                 "reads": [rng.choice([1, 7, 100, 512, 8192, 65536]) for _ in range(rng.randint(1, 3))], "throttle": thr,
                 "backend_delay": rng.choice([0, 0, 0.0007, 0.003]) if bs >= 512 else 0}
+        if op == "RETR" and bs >= 7 and rng.random() < 0.3:
+            plan["short_reads"] = rng.choice([1, bs // 2, bs - 1, max(1, bs // 8)])
         plan["chunks"] = chunks(plan["size"], rng)
         if len(plan["reads"]) and min(plan["reads"]) == 1 and olds + plan["size"] > 5000:
             plan["reads"] = [r if r > 1 else 100 for r in plan["reads"]]
